@@ -30,7 +30,7 @@ class C06(Prop):
     LONG_BIAS = 0.2
     BACKENDS = ("file", "file", "memory")
     WEIGHTS = {"page": 6, "pages": 2, "links": 2, "batch": 2, "again": 4, "create": 2, "delete": 3, "addprefix": 1,
-               "rmprefix": 1, "move": 1, "rule": 4, "unrule": 2, "reopen": 2, "clear": 1}
+               "rmprefix": 1, "move": 1, "rule": 4, "unrule": 2, "reopen": 2, "clear": 1, "recreate": 1}
     QUICK = (40, 22)
     THOROUGH = (200, 40)
     ASSUMPTIONS = ["rule patterns are evaluated by Python's re in the model too: the regex engine is trusted, the selection of "
@@ -149,6 +149,11 @@ class C06(Prop):
                 P.rules.pop(B(op[1]), None)
         elif kind == "clear":
             P.reset(op[1], {B(a): n for a, n in op[2]})
+        elif kind == "recreate":
+            if out.status != "ok":
+                ctx.fail("write-refused", "re-creating the index on its folder with overwrite=True failed: %r" % (out.exc,), case)
+            P.reset(case.led.default_rule, dict(case.led.rules))
+            case.flag("recreated-with-overwrite")
         elif kind in ("create", "delete", "addprefix", "rmprefix", "move"):
             # explicit edits: follow the ledger (which follows the real outcome)
             P.we = dict(led.prefix_map)
